@@ -102,7 +102,7 @@ pub fn explore(opts: &Opts) -> Explored {
                     }
                     _ => {
                         // saturating magnitudes (still far inside the range of f32)
-                        let sat = [-500.0, 30.0, -100.0, 89.0, 100.0, -30.0, 700.0, -89.0, 500.0, -700.0];
+                        let sat = [-500.0, 30.0, -100.0, 89.0, 100.0, -30.0, 700.0, -89.0, 500.0, -700.0, 710.0, -710.0, 800.0, -800.0, 1.0e4, -1.0e4];
                         (0..n).map(|i| sat[(i + var as usize) % sat.len()]).collect()
                     }
                 };
